@@ -59,6 +59,36 @@ def _float_range_risk(R, units, nit):
     return w > 2
 
 
+def _running_product_risk(ureg, units):
+    """Domain guard (not an oracle): replay the order in which the registry multiplies the scales met while descending the definitions and look at
+    the size of the running product; once it leaves the normal float range (sub-normal numbers keep only a few digits, inf * 0 is nan) the final
+    factor is no longer good to float accuracy although it is representable: such cases are outside the float tiers."""
+    logp = [0.0]
+    worst = [0.0]
+
+    def walk(ref, exp, depth=0):
+        if depth > 40:
+            return
+        for key in ref:
+            e2 = float(exp) * float(ref[key])
+            try:
+                d = ureg._units[ureg.get_name(key)]
+            except Exception:  # noqa: BLE001
+                return
+            if d.is_base:
+                continue
+            sc = abs(float(d.converter.scale)) if getattr(d.converter, "scale", 1) else 1.0
+            if sc > 0:
+                term = math.log10(sc) * e2
+                logp[0] += term
+                worst[0] = max(worst[0], abs(logp[0]), abs(term))
+            if d.reference is not None:
+                walk(d.reference, e2, depth + 1)
+
+    walk(ureg.UnitsContainer({k: v for k, v in units.items()}), 1)
+    return worst[0] > 290
+
+
 def _fr(v):
     """exponent as Fraction; float exponents (1/3 from to_reduced_units) are snapped to small rationals"""
     return Fraction(v).limit_denominator(1000) if isinstance(v, float) else Fraction(v)
@@ -157,7 +187,7 @@ def case_helper(case, col=None):
         if not isinstance(m, float) or m != m or math.isinf(m) or m == 0:
             raise Skip("uncertain_magnitude_needs_finite_nonzero")
         m = ufloat(m, abs(m) * 0.01)
-    if _float_range_risk(R, units, nit):
+    if _float_range_risk(R, units, nit) or (nit != "Fraction" and _running_product_risk(ureg, units)):
         raise Skip("float_range")
     mk = lambda: ureg.Quantity(m, ureg.UnitsContainer(dict(units)))  # noqa: E731
     q = mk()
